@@ -34,6 +34,10 @@ flattenable = {
 }
 
 
+def _is_single_bit(value: int) -> bool:
+    return value > 0 and value & (value - 1) == 0
+
+
 def _deduplicate_filter(args):
     seen = set()
     new_args = []
@@ -207,12 +211,13 @@ def eq_simplifier(a, b):
         if a.args[0].op == "BVV" and a.args[0].args[0] == 1:  # 1 ^ expr == 0
             return a.args[1] == 1
 
-        # (expr & a) ^ a == 0  ->  expr & a != 0
+        # (expr & a) ^ a == 0  ->  expr & a != 0  (only if a is a single bit)
         if (
             a.args[1].op == "BVV"
             and a.args[0].op == "__and__"
             and a.args[0].args[1].op == "BVV"
             and a.args[0].args[1].args[0] == a.args[1].args[0]
+            and _is_single_bit(a.args[1].args[0])
         ):
             return a.args[0] != 0
         if (
@@ -220,6 +225,7 @@ def eq_simplifier(a, b):
             and a.args[0].op == "__and__"
             and a.args[0].args[0].op == "BVV"
             and a.args[0].args[0].args[0] == a.args[1].args[0]
+            and _is_single_bit(a.args[1].args[0])
         ):
             return a.args[0].args[1] & a.args[0].args[0] != 0
 
@@ -305,12 +311,13 @@ def ne_simplifier(a, b):
         if a.args[0].op == "BVV" and a.args[0].args[0] == 1:
             return a.args[1] != 1
 
-        # (expr & a) ^ a != 0  ->  expr & a == 0
+        # (expr & a) ^ a != 0  ->  expr & a == 0  (only if a is a single bit)
         if (
             a.args[1].op == "BVV"
             and a.args[0].op == "__and__"
             and a.args[0].args[1].op == "BVV"
             and a.args[0].args[1].args[0] == a.args[1].args[0]
+            and _is_single_bit(a.args[1].args[0])
         ):
             return a.args[0] == 0
         if (
@@ -318,6 +325,7 @@ def ne_simplifier(a, b):
             and a.args[0].op == "__and__"
             and a.args[0].args[0].op == "BVV"
             and a.args[0].args[0].args[0] == a.args[1].args[0]
+            and _is_single_bit(a.args[1].args[0])
         ):
             return a.args[0].args[1] & a.args[0].args[0] == 0
 
